@@ -5,6 +5,6 @@ patch="$(readlink -f "$1")"; shift
 cd /repo || exit 2
 if ! git diff --quiet; then echo "refusing: /repo has uncommitted changes" >&2; exit 2; fi
 git apply "$patch" || { echo "patch does not apply" >&2; exit 2; }
-cd /verif && ./check "$@"; rc=$?
+cd /verif && timeout ${MUTANT_TIMEOUT:-1500} ./check "$@"; rc=$?
 git -C /repo checkout -- . 
 exit $rc
